@@ -145,7 +145,15 @@ ExprMenu == <<
   Bin("Eq", Call("not", <<Col("a")>>), Col("b")),
   Bin("Minus", Bin("Minus", Col("a"), Col("b")), Bin("Minus", Col("c"), Num("1"))),
   Call("f", <<Index(Col("a"), Num("1"))>>), Index(Call("f", <<Col("a")>>), Str("k")),
-  InE(Index(Col("a"), Num("1")), <<Call("f", <<>>)>>) >>
+  InE(Index(Col("a"), Num("1")), <<Call("f", <<>>)>>),
+  \* join conditions: equalities between columns of one side stay null-safe (entries from JoinOnlyFrom on are
+  \* admitted in join-condition positions only)
+  Call("not", <<Bin("Eq", Qual("$left", "a"), Qual("$left", "b"))>>),
+  Bin("Eq", Bin("Eq", Qual("$right", "a"), Qual("$right", "b")), Qual("$left", "c")),
+  Bin("NE", Bin("Eq", Qual("$right", "a"), Qual("$right", "b")), Col("true")),
+  Bin("And", Bin("Eq", Qual("$left", "a"), Qual("$right", "a")), Bin("NE", Qual("$left", "b"), Qual("$right", "b"))),
+  Bin("Eq", Qual("$right", "a"), Bin("Plus", Qual("$left", "a"), Num("1"))) >>
+JoinOnlyFrom == Len(ExprMenu) - 4
 
 Positions == {"where", "project", "extendNamed", "extendBare", "sumAgg", "sumAggBare", "sumKey", "sumKeyBare",
               "sort", "sort2", "take", "topN", "topBy", "joinOn", "joinOn2", "let", "renderVal",
@@ -177,10 +185,11 @@ InPos(pos, e) ==
 \* row counts must not be non-integer literals (parse error by the documented rule)
 PosAdmits(pos, e) ==
   ~(pos \in {"take", "topN"} /\ e.k = "Lit" /\ (e.kind = "String" \/ e.value = "0.5"))
+JoinPositions2 == {"joinOn", "joinOn2"}
 
 PositionsChoices(c) ==
   CASE Len(c) = 0 -> DOMAIN ExprMenu
-    [] Len(c) = 1 -> {p \in Positions : PosAdmits(p, ExprMenu[c[1]])}
+    [] Len(c) = 1 -> {p \in Positions : PosAdmits(p, ExprMenu[c[1]]) /\ (c[1] >= JoinOnlyFrom => p \in JoinPositions2)}
     [] OTHER -> {}
 
 ---------------------------------------------------------------------------
